@@ -18,6 +18,7 @@ Section val_ind'.
   Hypothesis Hlist : forall t l, Forall P l -> P (VList t l).
   Hypothesis Hbool : forall b, P (VBool b).
   Hypothesis Hmap : forall big vt m, Forall (fun kv => P (snd kv)) m -> P (VMap big vt m).
+  Hypothesis Hlam : forall a r caps body, Forall P caps -> P (VLam a r caps body).
   Fixpoint val_ind' (v : val) : P v :=
     match v with
     | VNat z => Hnat z | VStr s => Hstr s | VAddr a => Haddr a
@@ -36,6 +37,11 @@ Section val_ind'.
                                           | [] => Forall_nil _
                                           | kv :: r => Forall_cons kv (match kv as kv0 return P (snd kv0) with (_, x) => val_ind' x end) (go r)
                                           end) m)
+    | VLam a r caps body => Hlam a r caps body ((fix go (l : list val) : Forall P l :=
+                                                   match l with
+                                                   | [] => Forall_nil P
+                                                   | x :: r0 => Forall_cons x (val_ind' x) (go r0)
+                                                   end) caps)
     end.
 End val_ind'.
 
@@ -85,6 +91,8 @@ Proof.
   - injection H as ->. apply IHa. reflexivity.
   - apply andb_prop in H. destruct H as [H1 H2]. apply Bool.eqb_prop in H1. subst. f_equal. apply IHa. assumption.
   - injection H as -> ->. apply andb_true_intro. split; [apply Bool.eqb_reflx | apply IHa; reflexivity].
+  - apply andb_prop in H. destruct H as [H1 H2]. f_equal; [apply IHa1 | apply IHa2]; assumption.
+  - injection H as -> ->. apply andb_true_intro. split; [apply IHa1 | apply IHa2]; reflexivity.
 Qed.
 
 Lemma cval_eqb_eq a b : cval_eqb a b = true <-> a = b.
@@ -144,6 +152,7 @@ Fixpoint wt (v : val) : bool :=
                     match l with [] => true | x :: r => ty_eqb t (type_of x) && wt x && go r end) l
   | VMap _ vt m => (fix go (m : list (Z * val)) : bool :=
                       match m with [] => true | (k, x) :: r => (0 <=? k) && ty_eqb vt (type_of x) && wt x && go r end) m
+  | VLam _ _ caps _ => (fix go (l : list val) : bool := match l with [] => true | x :: r => wt x && go r end) caps
   | _ => true
   end.
 
@@ -157,6 +166,9 @@ Definition entry_ok (vt : ty) (kv : Z * val) : bool := (0 <=? fst kv) && ty_eqb 
 Lemma wt_map big vt m : wt (VMap big vt m) = forallb (entry_ok vt) m.
 Proof. induction m as [|[k0 x] r IH]; [reflexivity|]. cbn [wt forallb] in *. rewrite IH. reflexivity. Qed.
 
+Lemma wt_lam a r caps body : wt (VLam a r caps body) = forallb wt caps.
+Proof. induction caps as [|x l IH]; [reflexivity|]. cbn [wt forallb] in *. rewrite IH. reflexivity. Qed.
+
 Lemma wt_list_forall t l : wt (VList t l) = true -> forallb wt l = true.
 Proof.
   rewrite wt_list. induction l as [|y r IH]; intros H; [reflexivity|].
@@ -167,7 +179,7 @@ Qed.
 (* a duplicable, well-typed value contains no ticket *)
 Lemma duplicable_mass0 k v : wt v = true -> duplicable (type_of v) = true -> mass k v = 0.
 Proof.
-  induction v as [| | | | a b IHa IHb | x IH | | t l IH | | big vt m IHm] using val_ind'; intros Hwt Hd; try reflexivity.
+  induction v as [| | | | a b IHa IHb | x IH | | t l IH | | big vt m IHm | la lr caps lbody IHc] using val_ind'; intros Hwt Hd; try reflexivity.
   - discriminate.
   - cbn [wt type_of duplicable mass] in *. apply andb_prop in Hwt, Hd. destruct Hwt, Hd.
     rewrite IHa, IHb by assumption. reflexivity.
@@ -189,7 +201,7 @@ Qed.
 (* ---- non-negativity ---- *)
 Lemma mass_nonneg k v : tickets_pos v = true -> 0 <= mass k v.
 Proof.
-  induction v as [| | | t c a | a b IHa IHb | x IH | | t l IH | | big vt m IHm] using val_ind'; intros Hp; try (cbn [mass]; lia).
+  induction v as [| | | t c a | a b IHa IHb | x IH | | t l IH | | big vt m IHm | la lr caps lbody IHc] using val_ind'; intros Hp; try (cbn [mass]; lia).
   - cbn [tickets_pos mass] in *. destruct (key_eqb k (t, c)); lia.
   - cbn [tickets_pos mass] in *. apply andb_prop in Hp. destruct Hp. specialize (IHa ltac:(assumption)).
     specialize (IHb ltac:(assumption)). lia.
@@ -329,7 +341,7 @@ Qed.
 Lemma content_of_facts k v : forall c, content_of v = Some c ->
   mass k v = 0 /\ (wt v = true -> cval_wf c = true).
 Proof.
-  induction v as [z|x|a|t0 c0 a0|a b IHa IHb|x IH|t|t l IH|b0|big vt m IHm] using val_ind'; intros c H; cbn [content_of] in H; try discriminate.
+  induction v as [z|x|a|t0 c0 a0|a b IHa IHb|x IH|t|t l IH|b0|big vt m IHm|la lr caps lbody IHc] using val_ind'; intros c H; cbn [content_of] in H; try discriminate.
   - injection H as <-. split; [reflexivity | intros W; exact W].
   - injection H as <-. split; [reflexivity | reflexivity].
   - destruct (content_of a) as [ca|] eqn:Ea; [|discriminate]. destruct (content_of b) as [cb|] eqn:Eb; [|discriminate].
@@ -369,7 +381,7 @@ Ltac key_cases :=
          end.
 
 (* the four ticket instructions, by hand *)
-Lemma TICKET_preserves : preserves (step TICKET).
+Lemma TICKET_preserves f : preserves (step (S f) TICKET).
 Proof.
   intros [sf s m] st' Hok H. cbn [step stk] in H.
   destruct s as [|item s]; [discriminate|]. destruct s as [|am s]; [discriminate|]. destruct am; try discriminate.
@@ -379,7 +391,7 @@ Proof.
   all: split; [norm; solve_bool; auto | intros k; destruct (content_of_facts k item c Ec) as [Hm _]; nonneg_facts k; norm; key_cases; lia].
 Qed.
 
-Lemma READ_TICKET_preserves : preserves (step READ_TICKET).
+Lemma READ_TICKET_preserves f : preserves (step (S f) READ_TICKET).
 Proof.
   intros [sf s m] st' Hok H. cbn [step stk] in H.
   destruct_matches H; injection H as <-; norm; split_ands.
@@ -387,7 +399,7 @@ Proof.
   split; [rewrite C1, C2; solve_bool | intros k; nonneg_facts k; norm; rewrite (cval_mass k content); key_cases; lia].
 Qed.
 
-Lemma SPLIT_TICKET_preserves : preserves (step SPLIT_TICKET).
+Lemma SPLIT_TICKET_preserves f : preserves (step (S f) SPLIT_TICKET).
 Proof.
   intros [sf s m] st' Hok H. cbn [step stk] in H. unfold ticket_split in H.
   destruct_matches H; injection H as <-; norm; split_ands.
@@ -395,7 +407,7 @@ Proof.
   all: split; [norm; solve_bool | intros k; nonneg_facts k; norm; key_cases; try lia].
 Qed.
 
-Lemma JOIN_TICKETS_preserves : preserves (step JOIN_TICKETS).
+Lemma JOIN_TICKETS_preserves f : preserves (step (S f) JOIN_TICKETS).
 Proof.
   intros [sf s m] st' Hok H. cbn [step stk] in H. unfold ticket_join in H.
   destruct_matches H; injection H as <-; norm; split_ands.
@@ -523,14 +535,14 @@ Ltac map_stack H :=
   unfold ok_stack, wt_stack, stack_pos, with_stk in *; cbn [stk minted self forallb] in *;
   rewrite ?wt_map, ?pos_map in *; cbn [wt tickets_pos] in *; split_ands.
 
-Lemma EMPTY_MAP_preserves big vt : preserves (step (EMPTY_MAP big vt)).
+Lemma EMPTY_MAP_preserves f big vt : preserves (step (S f) (EMPTY_MAP big vt)).
 Proof.
   intros [sf s m0] st' Hok H. cbn [step stk] in H. injection H as <-. split.
   - unfold ok_stack, wt_stack, stack_pos, with_stk in *. cbn [stk forallb wt tickets_pos]. exact Hok.
   - intros k. unfold with_stk. cbn [stk minted stack_mass mass]. lia.
 Qed.
 
-Lemma UPDATE_preserves : preserves (step UPDATE).
+Lemma UPDATE_preserves f : preserves (step (S f) UPDATE).
 Proof.
   intros [sf s m0] st' Hok H. map_stack H.
   - (* Some v *)
@@ -551,7 +563,7 @@ Proof.
     nonneg_facts k. lia.
 Qed.
 
-Lemma GET_AND_UPDATE_preserves : preserves (step GET_AND_UPDATE).
+Lemma GET_AND_UPDATE_preserves f : preserves (step (S f) GET_AND_UPDATE).
 Proof.
   intros [sf s m0] st' Hok H. map_stack H.
   - match goal with Ht : ty_eqb ?vt (type_of ?v) = true, Hm : forallb (entry_ok ?vt) ?m = true, Hp : forallb (fun kv => tickets_pos (snd kv)) ?m = true |- _ =>
@@ -572,7 +584,7 @@ Proof.
     nonneg_facts k. lia.
 Qed.
 
-Lemma MEM_preserves : preserves (step MEM).
+Lemma MEM_preserves f : preserves (step (S f) MEM).
 Proof.
   intros [sf s m0] st' Hok H. map_stack H.
   split; [solve_bool|]. intros k. cbn [stk minted stack_mass]. rewrite !mass_map. cbn [mass].
@@ -581,7 +593,7 @@ Proof.
 Qed.
 
 (* GET hands out a copy: allowed only for duplicable value types, whose values hold no ticket *)
-Lemma GET_preserves : preserves (step GET).
+Lemma GET_preserves f : preserves (step (S f) GET).
 Proof.
   intros [sf s m0] st' Hok H. map_stack H.
   match goal with Hm : forallb (entry_ok ?vt) ?m = true, Hp : forallb (fun kv => tickets_pos (snd kv)) ?m = true |- _ =>
@@ -597,14 +609,68 @@ Proof.
   nonneg_facts k. lia.
 Qed.
 
-Lemma step_base_preserves i :
-  (forall a b, i <> IF_NONE a b) -> (forall a b, i <> IF_CONS a b) -> (forall a, i <> ITER a) -> (forall a, i <> MAP a) -> preserves (step i).
+
+(* pushable values hold no ticket *)
+Lemma pushable_facts v : wt v = true -> pushable (type_of v) = true ->
+  tickets_pos v = true /\ forall k, mass k v = 0.
 Proof.
-  intros N1 N2 N3 N4.
+  induction v as [| | | | a b IHa IHb | x IH | | t l IH | | big vt m IHm | la lr caps lbody IHc] using val_ind'; intros Hwt Hd;
+    try (split; [reflexivity | intros k; reflexivity]).
+  - discriminate.
+  - cbn [wt type_of pushable] in *. apply andb_prop in Hwt, Hd. destruct Hwt as [W1 W2], Hd as [D1 D2].
+    destruct (IHa W1 D1) as [A1 A2]. destruct (IHb W2 D2) as [B1 B2]. cbn [tickets_pos mass]. rewrite A1, B1. split; [reflexivity|].
+    intros k. rewrite A2, B2. reflexivity.
+  - cbn [wt type_of pushable tickets_pos mass] in *. apply IH; assumption.
+  - rewrite wt_list in Hwt. cbn [type_of pushable] in Hd. rewrite pos_list.
+    assert (G : stack_pos l = true /\ forall k, stack_mass k l = 0).
+    { induction l as [|x r IHr]; [split; [reflexivity | intros; reflexivity]|].
+      cbn [forallb stack_pos stack_mass] in *. inversion IH as [|? ? Hx Hr]; subst.
+      apply andb_prop in Hwt. destruct Hwt as [Hx' Hr']. apply andb_prop in Hx'. destruct Hx' as [Ht Hw].
+      apply ty_eqb_eq in Ht. destruct (Hx Hw ltac:(rewrite <- Ht; exact Hd)) as [X1 X2]. destruct (IHr Hr Hr') as [R1 R2].
+      unfold stack_pos in R1. rewrite X1, R1. split; [reflexivity|]. intros k. rewrite X2, R2. reflexivity. }
+    destruct G as [G1 G2]. split; [exact G1|]. intros k. rewrite mass_list. apply G2.
+  - rewrite wt_map in Hwt. cbn [type_of pushable] in Hd. destruct big; [discriminate|]. rewrite pos_map.
+    assert (G : forallb (fun kv => tickets_pos (snd kv)) m = true /\ forall k, map_mass k m = 0).
+    { induction m as [|[k0 x] r IHr]; [split; [reflexivity | intros; reflexivity]|].
+      cbn [forallb map_mass snd] in *. inversion IHm as [|? ? Hx Hr]; subst. cbn [snd] in Hx.
+      apply andb_prop in Hwt. destruct Hwt as [Hx' Hr']. unfold entry_ok in Hx'. cbn [fst snd] in Hx'.
+      apply andb_prop in Hx'. destruct Hx' as [Hx'' Hw]. apply andb_prop in Hx''. destruct Hx'' as [_ Ht].
+      apply ty_eqb_eq in Ht. destruct (Hx Hw ltac:(rewrite <- Ht; exact Hd)) as [X1 X2]. destruct (IHr Hr Hr') as [R1 R2].
+      rewrite X1, R1. split; [reflexivity|]. intros k. rewrite X2, R2. reflexivity. }
+    destruct G as [G1 G2]. split; [exact G1|]. intros k. rewrite mass_map. apply G2.
+Qed.
+
+Lemma fold_caps_facts x caps : wt x = true -> tickets_pos x = true -> forallb wt caps = true ->
+  forallb (fun c => pushable (type_of c)) caps = true ->
+  wt (fold_right VPair x caps) = true /\ tickets_pos (fold_right VPair x caps) = true /\
+  forall k, mass k (fold_right VPair x caps) = mass k x.
+Proof.
+  intros Wx Px. induction caps as [|c r IH]; intros Wc Pc; cbn [fold_right forallb] in *.
+  - repeat split; assumption.
+  - apply andb_prop in Wc, Pc. destruct Wc as [W1 W2], Pc as [P1 P2]. destruct (IH W2 P2) as (A & B & C).
+    destruct (pushable_facts c W1 P1) as [F1 F2]. cbn [wt tickets_pos mass]. rewrite W1, A, F1, B. repeat split.
+    intros k. rewrite F2, C. reflexivity.
+Qed.
+
+Lemma APPLY_preserves f : preserves (step (S f) APPLY).
+Proof.
+  intros [sf s m] st' Hok H. cbn [step stk] in H. destruct_matches H. injection H as <-.
+  unfold ok_stack, wt_stack, stack_pos, with_stk in *. cbn [stk minted self forallb] in *. rewrite ?wt_lam in *.
+  cbn [wt tickets_pos] in *. split_ands. split.
+  - rewrite forallb_app. cbn [forallb]. solve_bool.
+  - intros k. nonneg_facts k. cbn [stk minted stack_mass mass]. lia.
+Qed.
+
+Lemma step_base_preserves f i :
+  (forall a b, i <> IF_NONE a b) -> (forall a b, i <> IF_CONS a b) -> (forall a, i <> ITER a) -> (forall a, i <> MAP a) ->
+  i <> EXEC -> (forall a, i <> LOOP a) -> preserves (step (S f) i).
+Proof.
+  intros N1 N2 N3 N4 N5 N6.
   destruct i; try (exfalso; eapply N1; reflexivity); try (exfalso; eapply N2; reflexivity); try (exfalso; eapply N3; reflexivity);
-    try (exfalso; eapply N4; reflexivity).
-  1-4: first [ exact TICKET_preserves | exact READ_TICKET_preserves | exact SPLIT_TICKET_preserves | exact JOIN_TICKETS_preserves ].
-  all: try first [ apply EMPTY_MAP_preserves | exact UPDATE_preserves | exact GET_AND_UPDATE_preserves | exact MEM_preserves | exact GET_preserves ].
+    try (exfalso; eapply N4; reflexivity); try (exfalso; apply N5; reflexivity); try (exfalso; eapply N6; reflexivity).
+  all: try first [ apply TICKET_preserves | apply READ_TICKET_preserves | apply SPLIT_TICKET_preserves | apply JOIN_TICKETS_preserves
+                 | apply EMPTY_MAP_preserves | apply UPDATE_preserves | apply GET_AND_UPDATE_preserves | apply MEM_preserves
+                 | apply GET_preserves | apply APPLY_preserves ].
   all: intros [sf stk0 m] st' Hok H; cbn [step stk] in H.
   all: destruct_matches H.
   all: try (injection H as <-).
@@ -683,30 +749,38 @@ Proof.
     apply andb_prop in E, Hr. destruct E as [E1 E2], Hr as [Hr1 Hr2]. rewrite E1, Hr1, (IHr Hr2 E2). reflexivity.
 Qed.
 
-Theorem step_preserves i : preserves (step i).
+Theorem step_preserves f : forall i, preserves (step f i).
 Proof.
-  induction i as [i N1 N2 N3 N4 | bt bf IHt IHf | bt bf IHt IHf | body IHb | body IHb] using instr_ind'.
-  5: {
-    intros [sf s m] st' Hok H. cbn [step stk] in H.
+  induction f as [|f IHfuel]; intros i.
+  { intros st st' _ H. discriminate H. }
+  assert (Hall : forall p, Forall (fun j => preserves (step f j)) p)
+    by (intros p; apply Forall_forall; intros j _; apply IHfuel).
+  destruct i.
+  all: try (apply step_base_preserves; intros; discriminate).
+  - { intros [sf s m] st' Hok H. cbn [step stk] in H.
     destruct s as [|x s]; [discriminate|]. destruct x; try discriminate.
-    assert (Hparts : ok_stack s = true /\ forallb wt l = true /\ forallb tickets_pos l = true).
-    { unfold ok_stack, wt_stack, stack_pos in *. cbn [stk forallb] in Hok.
-      apply andb_prop in Hok. destruct Hok as [O1 O2]. apply andb_prop in O1, O2.
-      destruct O1 as [W1 W2], O2 as [P1 P2]. rewrite W2, P2. rewrite pos_list in P1.
-      split; [reflexivity|]. split; [apply (wt_list_forall t l W1) | exact P1]. }
-    destruct Hparts as (Hs & Hw & Hp).
-    destruct (map_with step body l (with_stk {| self := sf; stk := VList t l :: s; minted := m |} s) []) as [[st1 items]|] eqn:E;
-      [|discriminate].
-    destruct (map_with_preserves step body IHb l (with_stk {| self := sf; stk := VList t l :: s; minted := m |} s) [] st1 items Hs Hw Hp eq_refl eq_refl E) as (R1 & R2 & R3 & R4).
-    destruct (list_from_items t items) as [v|] eqn:Ev; [|discriminate]. injection H as <-.
-    split.
-    - destruct (list_from_items_facts t items v (sf, CN 0) R2 Ev) as (F1 & F2 & _).
-      unfold ok_stack, wt_stack, stack_pos, with_stk in *. cbn [stk forallb]. rewrite F1, F2, R3.
-      apply andb_prop in R1. destruct R1 as [A B]. rewrite A, B. reflexivity.
-    - intros k. specialize (R4 k). destruct (list_from_items_facts t items v k R2 Ev) as (_ & _ & F3).
-      unfold with_stk in *. cbn [stk minted stack_mass] in *. rewrite F3, mass_list. lia.
-  }
-  4: {
+    + (* Some v *)
+      set (st1 := with_stk {| self := sf; stk := VSome x :: s; minted := m |} (x :: s)) in *.
+      assert (Hok1 : ok_stack (stk st1) = true) by (unfold st1; norm; exact Hok).
+      destruct (run_with_preserves (step f) bf (Hall bf) st1 st' Hok1 H) as [Hok' Hle].
+      split; [assumption|]. eapply le_state_trans; [|exact Hle]. intros k. unfold st1. norm. lia.
+    + (* None *)
+      set (st1 := with_stk {| self := sf; stk := VNone t :: s; minted := m |} s) in *.
+      assert (Hok1 : ok_stack (stk st1) = true) by (unfold st1; norm; exact Hok).
+      destruct (run_with_preserves (step f) bt (Hall bt) st1 st' Hok1 H) as [Hok' Hle].
+      split; [assumption|]. eapply le_state_trans; [|exact Hle]. intros k. unfold st1. norm. lia. }
+  - { intros [sf s m] st' Hok H. cbn [step stk] in H.
+    destruct s as [|x s]; [discriminate|]. destruct x; try discriminate. destruct l as [|y l].
+    + set (st1 := with_stk {| self := sf; stk := VList t [] :: s; minted := m |} s) in *.
+      assert (Hok1 : ok_stack (stk st1) = true) by (unfold st1; norm; exact Hok).
+      destruct (run_with_preserves (step f) bf (Hall bf) st1 st' Hok1 H) as [Hok' Hle].
+      split; [assumption|]. eapply le_state_trans; [|exact Hle]. intros k. unfold st1. norm. lia.
+    + set (st1 := with_stk {| self := sf; stk := VList t (y :: l) :: s; minted := m |} (y :: VList t l :: s)) in *.
+      assert (Hok1 : ok_stack (stk st1) = true).
+      { unfold st1. norm. split_ands. solve_bool. }
+      destruct (run_with_preserves (step f) bt (Hall bt) st1 st' Hok1 H) as [Hok' Hle].
+      split; [assumption|]. eapply le_state_trans; [|exact Hle]. intros k. unfold st1. norm. lia. }
+  - {
     intros [sf s m] st' Hok H. cbn [step stk] in H.
     destruct s as [|x s]; [discriminate|]. destruct x; try discriminate.
     - (* pair *)
@@ -714,7 +788,7 @@ Proof.
       { norm. split_ands. repeat split; solve_bool. }
       destruct Hparts as (Hs & Hw & Hp).
       match type of H with iter_with _ _ ?l0 ?st0 = _ =>
-        destruct (iter_with_preserves step body IHb l0 st0 st' Hs Hw Hp H) as [Hok' Hle] end.
+        destruct (iter_with_preserves (step f) body (Hall body) l0 st0 st' Hs Hw Hp H) as [Hok' Hle] end.
       split; [assumption|]. intros k. specialize (Hle k). norm. lia.
     - (* list *)
       assert (Hparts : ok_stack s = true /\ forallb wt l = true /\ forallb tickets_pos l = true).
@@ -724,7 +798,7 @@ Proof.
         split; [reflexivity|]. split; [apply (wt_list_forall t l W1) | exact P1]. }
       destruct Hparts as (Hs & Hw & Hp).
       match type of H with iter_with _ _ ?l0 ?st0 = _ =>
-        destruct (iter_with_preserves step body IHb l0 st0 st' Hs Hw Hp H) as [Hok' Hle] end.
+        destruct (iter_with_preserves (step f) body (Hall body) l0 st0 st' Hs Hw Hp H) as [Hok' Hle] end.
       split; [assumption|]. intros k. specialize (Hle k). unfold with_stk in Hle.
       cbn [stk minted] in *. cbn [stack_mass]. rewrite mass_list. lia.
     - (* map (not big_map): iterate over the (key, value) pairs *)
@@ -743,37 +817,64 @@ Proof.
         destruct (IHr W1 P1) as (A & B & C). rewrite E1, E3, Q1, A, B. repeat split. intros k. rewrite C. lia. }
       destruct Hparts as (Hs & Hw & Hp & Hm).
       match type of H with iter_with _ _ ?l0 ?st0 = _ =>
-        destruct (iter_with_preserves step body IHb l0 st0 st' Hs Hw Hp H) as [Hok' Hle] end.
+        destruct (iter_with_preserves (step f) body (Hall body) l0 st0 st' Hs Hw Hp H) as [Hok' Hle] end.
       split; [assumption|]. intros k. specialize (Hle k). unfold with_stk in Hle.
       cbn [stk minted] in *. cbn [stack_mass]. rewrite mass_map, <- Hm. lia.
   }
-  - apply step_base_preserves; assumption.
-  - intros [sf s m] st' Hok H. cbn [step stk] in H.
+  - {
+    intros [sf s m] st' Hok H. cbn [step stk] in H.
     destruct s as [|x s]; [discriminate|]. destruct x; try discriminate.
-    + (* Some v *)
-      set (st1 := with_stk {| self := sf; stk := VSome x :: s; minted := m |} (x :: s)) in *.
-      assert (Hok1 : ok_stack (stk st1) = true) by (unfold st1; norm; exact Hok).
-      destruct (run_with_preserves step bf IHf st1 st' Hok1 H) as [Hok' Hle].
-      split; [assumption|]. eapply le_state_trans; [|exact Hle]. intros k. unfold st1. norm. lia.
-    + (* None *)
-      set (st1 := with_stk {| self := sf; stk := VNone t :: s; minted := m |} s) in *.
-      assert (Hok1 : ok_stack (stk st1) = true) by (unfold st1; norm; exact Hok).
-      destruct (run_with_preserves step bt IHt st1 st' Hok1 H) as [Hok' Hle].
-      split; [assumption|]. eapply le_state_trans; [|exact Hle]. intros k. unfold st1. norm. lia.
-  - intros [sf s m] st' Hok H. cbn [step stk] in H.
-    destruct s as [|x s]; [discriminate|]. destruct x; try discriminate. destruct l as [|y l].
-    + set (st1 := with_stk {| self := sf; stk := VList t [] :: s; minted := m |} s) in *.
-      assert (Hok1 : ok_stack (stk st1) = true) by (unfold st1; norm; exact Hok).
-      destruct (run_with_preserves step bf IHf st1 st' Hok1 H) as [Hok' Hle].
-      split; [assumption|]. eapply le_state_trans; [|exact Hle]. intros k. unfold st1. norm. lia.
-    + set (st1 := with_stk {| self := sf; stk := VList t (y :: l) :: s; minted := m |} (y :: VList t l :: s)) in *.
-      assert (Hok1 : ok_stack (stk st1) = true).
-      { unfold st1. norm. split_ands. solve_bool. }
-      destruct (run_with_preserves step bt IHt st1 st' Hok1 H) as [Hok' Hle].
-      split; [assumption|]. eapply le_state_trans; [|exact Hle]. intros k. unfold st1. norm. lia.
+    assert (Hparts : ok_stack s = true /\ forallb wt l = true /\ forallb tickets_pos l = true).
+    { unfold ok_stack, wt_stack, stack_pos in *. cbn [stk forallb] in Hok.
+      apply andb_prop in Hok. destruct Hok as [O1 O2]. apply andb_prop in O1, O2.
+      destruct O1 as [W1 W2], O2 as [P1 P2]. rewrite W2, P2. rewrite pos_list in P1.
+      split; [reflexivity|]. split; [apply (wt_list_forall t l W1) | exact P1]. }
+    destruct Hparts as (Hs & Hw & Hp).
+    destruct (map_with (step f) body l (with_stk {| self := sf; stk := VList t l :: s; minted := m |} s) []) as [[st1 items]|] eqn:E;
+      [|discriminate].
+    destruct (map_with_preserves (step f) body (Hall body) l (with_stk {| self := sf; stk := VList t l :: s; minted := m |} s) [] st1 items Hs Hw Hp eq_refl eq_refl E) as (R1 & R2 & R3 & R4).
+    destruct (list_from_items t items) as [v|] eqn:Ev; [|discriminate]. injection H as <-.
+    split.
+    - destruct (list_from_items_facts t items v (sf, CN 0) R2 Ev) as (F1 & F2 & _).
+      unfold ok_stack, wt_stack, stack_pos, with_stk in *. cbn [stk forallb]. rewrite F1, F2, R3.
+      apply andb_prop in R1. destruct R1 as [A B]. rewrite A, B. reflexivity.
+    - intros k. specialize (R4 k). destruct (list_from_items_facts t items v k R2 Ev) as (_ & _ & F3).
+      unfold with_stk in *. cbn [stk minted stack_mass] in *. rewrite F3, mass_list. lia.
+  }
+  - { (* EXEC *)
+      intros [sf s m] st' Hok H. cbn [step stk self minted] in H.
+      destruct s as [|x s]; [discriminate|]. destruct s as [|lam s]; [discriminate|]. destruct lam; try discriminate.
+      destruct (ty_eqb a (type_of x) && forallb (fun c => pushable (type_of c)) caps) eqn:Ec; [|discriminate].
+      apply andb_prop in Ec. destruct Ec as [_ Ecaps].
+      unfold ok_stack, wt_stack, stack_pos in Hok. cbn [stk forallb] in Hok. apply andb_prop in Hok. destruct Hok as [O1 O2].
+      apply andb_prop in O1, O2. destruct O1 as [Wx O1], O2 as [Px O2]. apply andb_prop in O1, O2.
+      destruct O1 as [Wl Ws], O2 as [_ Ps]. rewrite wt_lam in Wl.
+      destruct (fold_caps_facts x caps Wx Px Wl Ecaps) as (Wa & Pa & Ma).
+      destruct (run_with (step f) body {| self := sf; stk := [fold_right VPair x caps]; minted := m |}) as [st1|] eqn:E; [|discriminate].
+      assert (Hok0 : ok_stack (stk {| self := sf; stk := [fold_right VPair x caps]; minted := m |}) = true).
+      { unfold ok_stack, wt_stack, stack_pos. cbn [stk forallb]. rewrite Wa, Pa. reflexivity. }
+      destruct (run_with_preserves (step f) body (Hall body) _ st1 Hok0 E) as [Hok1 Hle1].
+      destruct (stk st1) as [|y [|y2 rest]] eqn:Es; try discriminate.
+      destruct (ty_eqb r (type_of y)); [|discriminate]. injection H as <-.
+      unfold ok_stack, wt_stack, stack_pos in *. cbn [stk forallb] in *. apply andb_prop in Hok1. destruct Hok1 as [A B].
+      rewrite andb_true_r in A, B. split.
+      + rewrite A, B, Ws, Ps. reflexivity.
+      + intros k. specialize (Hle1 k). cbn [stk minted stack_mass mass] in *. rewrite Es in Hle1. cbn [stack_mass] in Hle1.
+        rewrite (Ma k) in Hle1. pose proof (mass_nonneg k x Px). lia. }
+  - { (* LOOP *)
+      intros [sf s m] st' Hok H. cbn [step stk] in H.
+      destruct s as [|x s]; [discriminate|]. destruct x; try discriminate. destruct b.
+      + set (st0 := with_stk {| self := sf; stk := VBool true :: s; minted := m |} s) in *.
+        assert (Hok0 : ok_stack (stk st0) = true) by (unfold st0; norm; exact Hok).
+        destruct (run_with (step f) body st0) as [st1|] eqn:E; [|discriminate].
+        destruct (run_with_preserves (step f) body (Hall body) st0 st1 Hok0 E) as [Hok1 Hle1].
+        destruct (IHfuel (LOOP body) st1 st' Hok1 H) as [Hok' Hle'].
+        split; [assumption|]. eapply le_state_trans; [|eapply le_state_trans; [exact Hle1 | exact Hle']].
+        intros k. unfold st0. norm. lia.
+      + injection H as <-. split; [norm; exact Hok|]. intros k. norm. lia. }
 Qed.
 
-Theorem run_preserves p : preserves (run p).
+Theorem run_preserves f p : preserves (run f p).
 Proof. apply run_with_preserves. apply Forall_forall. intros i _. apply step_preserves. Qed.
 
 (* ---- programs without TICKET never touch the ledger ---- *)
@@ -819,70 +920,81 @@ Proof.
     rewrite (IH _ _ st' items H). apply (run_with_keeps stp body Hb Hno) in E. exact E.
 Qed.
 
-Theorem step_keeps_ledger i : has_ticket_instr i = false -> keeps_ledger (step i).
+Theorem step_keeps_ledger f : forall i, has_ticket_instr i = false -> keeps_ledger (step f i).
 Proof.
-  induction i as [i N1 N2 N3 N4 | bt bf IHt IHf | bt bf IHt IHf | body IHb | body IHb] using instr_ind'; intros Hno.
-  5: {
-    cbn [has_ticket_instr] in Hno. rewrite existsb_fix in Hno.
-    intros [sf s m] st' H. cbn [step stk] in H.
-    destruct s as [|x s]; [discriminate|]. destruct x; try discriminate.
-    destruct (map_with step body l (with_stk {| self := sf; stk := VList t l :: s; minted := m |} s) []) as [[st1 items]|] eqn:E;
-      [|discriminate].
-    destruct (list_from_items t items) as [v|]; [|discriminate]. injection H as <-.
-    apply (map_with_keeps step body IHb Hno) in E. exact E.
-  }
-  4: {
-    cbn [has_ticket_instr] in Hno. rewrite existsb_fix in Hno.
-    intros [sf s m] st' H. cbn [step stk] in H.
-    destruct s as [|x s]; [discriminate|]. destruct x; try discriminate.
-    - apply (iter_with_keeps step body IHb Hno) in H. exact H.
-    - apply (iter_with_keeps step body IHb Hno) in H. exact H.
-    - destruct big; [discriminate|]. apply (iter_with_keeps step body IHb Hno) in H. exact H.
-  }
-  - intros [sf s m] st' H.
-    destruct i; try discriminate Hno; try (exfalso; eapply N1; reflexivity); try (exfalso; eapply N2; reflexivity); try (exfalso; eapply N3; reflexivity); try (exfalso; eapply N4; reflexivity);
-      cbn [step stk] in H; destruct_matches H; injection H as <-; reflexivity.
-  - cbn [has_ticket_instr] in Hno. rewrite !existsb_fix in Hno. apply orb_false_elim in Hno. destruct Hno as [H1 H2].
-    intros [sf s m] st' H. cbn [step stk] in H.
-    destruct s as [|x s]; [discriminate|]. destruct x; try discriminate.
-    + apply (run_with_keeps step bf IHf H2) in H. exact H.
-    + apply (run_with_keeps step bt IHt H1) in H. exact H.
-  - cbn [has_ticket_instr] in Hno. rewrite !existsb_fix in Hno. apply orb_false_elim in Hno. destruct Hno as [H1 H2].
-    intros [sf s m] st' H. cbn [step stk] in H.
-    destruct s as [|x s]; [discriminate|]. destruct x; try discriminate. destruct l as [|y l].
-    + apply (run_with_keeps step bf IHf H2) in H. exact H.
-    + apply (run_with_keeps step bt IHt H1) in H. exact H.
+  induction f as [|f IHfuel]; intros i Hno.
+  { intros st st' H. discriminate H. }
+  assert (Hall : forall p, Forall (fun j => has_ticket_instr j = false -> keeps_ledger (step f j)) p)
+    by (intros p; apply Forall_forall; intros j _; apply IHfuel).
+  destruct i; try discriminate Hno.
+  all: try (intros [sf stk0 m] st' H; cbn [step stk] in H; destruct_matches H; injection H as <-; reflexivity).
+  - { (* IF_NONE *)
+      cbn [has_ticket_instr] in Hno. rewrite !existsb_fix in Hno. apply orb_false_elim in Hno. destruct Hno as [H1 H2].
+      intros [sf s m] st' H. cbn [step stk] in H.
+      destruct s as [|x s]; [discriminate|]. destruct x; try discriminate.
+      + apply (run_with_keeps (step f) bf (Hall bf) H2) in H. exact H.
+      + apply (run_with_keeps (step f) bt (Hall bt) H1) in H. exact H. }
+  - { (* IF_CONS *)
+      cbn [has_ticket_instr] in Hno. rewrite !existsb_fix in Hno. apply orb_false_elim in Hno. destruct Hno as [H1 H2].
+      intros [sf s m] st' H. cbn [step stk] in H.
+      destruct s as [|x s]; [discriminate|]. destruct x; try discriminate. destruct l as [|y l].
+      + apply (run_with_keeps (step f) bf (Hall bf) H2) in H. exact H.
+      + apply (run_with_keeps (step f) bt (Hall bt) H1) in H. exact H. }
+  - { (* ITER *)
+      cbn [has_ticket_instr] in Hno. rewrite existsb_fix in Hno.
+      intros [sf s m] st' H. cbn [step stk] in H.
+      destruct s as [|x s]; [discriminate|]. destruct x; try discriminate.
+      - apply (iter_with_keeps (step f) body (Hall body) Hno) in H. exact H.
+      - apply (iter_with_keeps (step f) body (Hall body) Hno) in H. exact H.
+      - destruct big; [discriminate|]. apply (iter_with_keeps (step f) body (Hall body) Hno) in H. exact H. }
+  - { (* MAP *)
+      cbn [has_ticket_instr] in Hno. rewrite existsb_fix in Hno.
+      intros [sf s m] st' H. cbn [step stk] in H.
+      destruct s as [|x s]; [discriminate|]. destruct x; try discriminate.
+      destruct (map_with (step f) body l (with_stk {| self := sf; stk := VList t l :: s; minted := m |} s) []) as [[st1 items]|] eqn:E;
+        [|discriminate].
+      destruct (list_from_items t items) as [v|]; [|discriminate]. injection H as <-.
+      apply (map_with_keeps (step f) body (Hall body) Hno) in E. exact E. }
+  - { (* LOOP *)
+      assert (Hno' := Hno). cbn [has_ticket_instr] in Hno. rewrite existsb_fix in Hno.
+      intros [sf s m] st' H. cbn [step stk] in H.
+      destruct s as [|x s]; [discriminate|]. destruct x; try discriminate. destruct b.
+      + match type of H with context [run_with (step f) body ?st0] =>
+          destruct (run_with (step f) body st0) as [st1|] eqn:E; [|discriminate] end.
+        apply (run_with_keeps (step f) body (Hall body) Hno) in E.
+        rewrite (IHfuel (LOOP body) Hno' st1 st' H). exact E.
+      + injection H as <-. reflexivity. }
 Qed.
 
-Theorem run_keeps_ledger p : prog_has_ticket p = false -> keeps_ledger (run p).
+Theorem run_keeps_ledger f p : prog_has_ticket p = false -> keeps_ledger (run f p).
 Proof.
   intros Hno. apply run_with_keeps; [|exact Hno].
   apply Forall_forall. intros i _. apply step_keeps_ledger.
 Qed.
 
 (* ---- the program-level statements ---- *)
-Theorem conservation p st st' :
-  ok_stack (stk st) = true -> run p st = Ok st' ->
+Theorem conservation f p st st' :
+  ok_stack (stk st) = true -> run f p st = Ok st' ->
   ok_stack (stk st') = true /\
   forall k, stack_mass k (stk st') - stack_mass k (stk st) <= ledger_sum k (minted st') - ledger_sum k (minted st).
 Proof.
-  intros Hok H. destruct (run_preserves p st st' Hok H) as [Hok' Hle].
+  intros Hok H. destruct (run_preserves f p st st' Hok H) as [Hok' Hle].
   split; [assumption|]. intros k. specialize (Hle k). lia.
 Qed.
 
-Theorem no_ticket_no_growth p st st' :
-  ok_stack (stk st) = true -> prog_has_ticket p = false -> run p st = Ok st' ->
+Theorem no_ticket_no_growth f p st st' :
+  ok_stack (stk st) = true -> prog_has_ticket p = false -> run f p st = Ok st' ->
   forall k, stack_mass k (stk st') <= stack_mass k (stk st).
 Proof.
-  intros Hok Hno H k. destruct (conservation p st st' Hok H) as [_ Hc]. specialize (Hc k).
-  rewrite (run_keeps_ledger p Hno st st' H) in Hc. lia.
+  intros Hok Hno H k. destruct (conservation f p st st' Hok H) as [_ Hc]. specialize (Hc k).
+  rewrite (run_keeps_ledger f p Hno st st' H) in Hc. lia.
 Qed.
 
-Theorem from_empty p a st' :
-  run p (init a) = Ok st' ->
+Theorem from_empty f p a st' :
+  run f p (init a) = Ok st' ->
   stack_pos (stk st') = true /\ forall k, stack_mass k (stk st') <= ledger_sum k (minted st').
 Proof.
-  intros H. destruct (conservation p (init a) st' eq_refl H) as [Hok Hc].
+  intros H. destruct (conservation f p (init a) st' eq_refl H) as [Hok Hc].
   unfold ok_stack in Hok. apply andb_prop in Hok. destruct Hok as [_ Hp].
   split; [assumption|]. intros k. specialize (Hc k). simpl in Hc. lia.
 Qed.
@@ -899,7 +1011,7 @@ Fixpoint tickets_of (v : val) : list (bytes * cval * Z) :=
 
 Lemma tickets_pos_spec v : tickets_pos v = true -> forall tk0 cv0 amt, In (tk0, cv0, amt) (tickets_of v) -> 0 < amt.
 Proof.
-  induction v as [| | | t0 c0 a0 | p q IHa IHb | x IH | | t0 l IH | | big vt m IHm] using val_ind'; intros Hp tk0 cv0 amt Hin;
+  induction v as [| | | t0 c0 a0 | p q IHa IHb | x IH | | t0 l IH | | big vt m IHm | la lr caps lbody IHc] using val_ind'; intros Hp tk0 cv0 amt Hin;
     try (simpl in Hin; contradiction).
   - simpl in Hin. destruct Hin as [E|[]]. injection E as <- <- <-. simpl in Hp. lia.
   - cbn [tickets_pos tickets_of] in *. apply andb_prop in Hp. destruct Hp as [H1 H2].
@@ -913,9 +1025,9 @@ Proof.
 Qed.
 
 (* ---- per-instruction specifications ---- *)
-Theorem ticket_spec st item amount s c :
+Theorem ticket_spec f st item amount s c :
   stk st = item :: VNat amount :: s -> content_of item = Some c ->
-  step TICKET st =
+  step (S f) TICKET st =
   Ok (if amount >? 0
       then {| self := self st; stk := VSome (VTicket (self st) c amount) :: s; minted := ((self st, c), amount) :: minted st |}
       else with_stk st (VNone (TTicket (cty_of c)) :: s)).
@@ -923,22 +1035,22 @@ Proof.
   intros Hs Hc. cbn [step]. rewrite Hs, Hc. destruct (amount >? 0); reflexivity.
 Qed.
 
-Theorem split_spec st tk c a l r s :
+Theorem split_spec f st tk c a l r s :
   stk st = VTicket tk c a :: VPair (VNat l) (VNat r) :: s ->
   (l = 0 \/ r = 0 \/ l + r <> a ->
-     step SPLIT_TICKET st = Ok (with_stk st (VNone (TPair (TTicket (cty_of c)) (TTicket (cty_of c))) :: s))) /\
+     step (S f) SPLIT_TICKET st = Ok (with_stk st (VNone (TPair (TTicket (cty_of c)) (TTicket (cty_of c))) :: s))) /\
   (l <> 0 -> r <> 0 -> l + r = a ->
-     step SPLIT_TICKET st = Ok (with_stk st (VSome (VPair (VTicket tk c l) (VTicket tk c r)) :: s))).
+     step (S f) SPLIT_TICKET st = Ok (with_stk st (VSome (VPair (VTicket tk c l) (VTicket tk c r)) :: s))).
 Proof.
   intros Hs. cbn [step]. rewrite Hs. unfold ticket_split. split.
   - intros H. destruct (negb (l + r =? a) || (l =? 0) || (r =? 0)) eqn:E; [reflexivity | lia].
   - intros H1 H2 H3. destruct (negb (l + r =? a) || (l =? 0) || (r =? 0)) eqn:E; [lia | reflexivity].
 Qed.
 
-Theorem join_spec st t1 c1 a1 t2 c2 a2 s :
+Theorem join_spec f st t1 c1 a1 t2 c2 a2 s :
   stk st = VPair (VTicket t1 c1 a1) (VTicket t2 c2 a2) :: s -> cty_of c1 = cty_of c2 ->
-  (t1 = t2 /\ c1 = c2 -> step JOIN_TICKETS st = Ok (with_stk st (VSome (VTicket t1 c1 (a1 + a2)) :: s))) /\
-  (~ (t1 = t2 /\ c1 = c2) -> step JOIN_TICKETS st = Ok (with_stk st (VNone (TTicket (cty_of c1)) :: s))).
+  (t1 = t2 /\ c1 = c2 -> step (S f) JOIN_TICKETS st = Ok (with_stk st (VSome (VTicket t1 c1 (a1 + a2)) :: s))) /\
+  (~ (t1 = t2 /\ c1 = c2) -> step (S f) JOIN_TICKETS st = Ok (with_stk st (VNone (TTicket (cty_of c1)) :: s))).
 Proof.
   intros Hs Hc. cbn [step]. rewrite Hs, Hc.
   replace (cty_eqb (cty_of c2) (cty_of c2)) with true by (symmetry; apply cty_eqb_eq; reflexivity).
@@ -962,7 +1074,7 @@ Fixpoint has_ticket (v : val) : bool :=
 
 Lemma has_ticket_not_duplicable v : wt v = true -> has_ticket v = true -> duplicable (type_of v) = false.
 Proof.
-  induction v as [| | | | a b IHa IHb | x IH | | t l IH | | big vt m IHm] using val_ind'; intros Hwt Hh; try discriminate Hh.
+  induction v as [| | | | a b IHa IHb | x IH | | t l IH | | big vt m IHm | la lr caps lbody IHc] using val_ind'; intros Hwt Hh; try discriminate Hh.
   - reflexivity.
   - cbn [wt has_ticket type_of duplicable] in *. apply andb_prop in Hwt. destruct Hwt as [W1 W2].
     apply orb_prop in Hh. destruct Hh as [Hh|Hh]; [rewrite (IHa W1 Hh) | rewrite (IHb W2 Hh), andb_false_r]; reflexivity.
@@ -976,34 +1088,34 @@ Proof.
     + apply IHr; assumption.
 Qed.
 
-Theorem dup_rejects_tickets st x s :
-  stk st = x :: s -> wt x = true -> has_ticket x = true -> step DUP st = Reject.
+Theorem dup_rejects_tickets f st x s :
+  stk st = x :: s -> wt x = true -> has_ticket x = true -> step (S f) DUP st = Reject.
 Proof.
   intros Hs Hw Hh. cbn [step]. rewrite Hs, (has_ticket_not_duplicable x Hw Hh). reflexivity.
 Qed.
 
-Theorem dupn_rejects_tickets st n x :
-  nth_error (stk st) n = Some x -> wt x = true -> has_ticket x = true -> step (DUPN (S n)) st = Reject.
+Theorem dupn_rejects_tickets f st n x :
+  nth_error (stk st) n = Some x -> wt x = true -> has_ticket x = true -> step (S f) (DUPN (S n)) st = Reject.
 Proof.
   intros Hs Hw Hh. cbn [step]. rewrite Hs, (has_ticket_not_duplicable x Hw Hh).
   destruct (stk st); reflexivity.
 Qed.
 
 (* a successful split or join redistributes the amount exactly *)
-Theorem split_conserves_exactly st tk c a l r s k :
+Theorem split_conserves_exactly f st tk c a l r s k :
   stk st = VTicket tk c a :: VPair (VNat l) (VNat r) :: s -> l <> 0 -> r <> 0 -> l + r = a ->
-  exists st', step SPLIT_TICKET st = Ok st' /\ stack_mass k (stk st') = stack_mass k (stk st) /\ minted st' = minted st.
+  exists st', step (S f) SPLIT_TICKET st = Ok st' /\ stack_mass k (stk st') = stack_mass k (stk st) /\ minted st' = minted st.
 Proof.
-  intros Hs Hl Hr Ha. destruct (split_spec st tk c a l r s Hs) as [_ H]. specialize (H Hl Hr Ha).
+  intros Hs Hl Hr Ha. destruct (split_spec f st tk c a l r s Hs) as [_ H]. specialize (H Hl Hr Ha).
   eexists. split; [exact H|]. rewrite Hs. unfold with_stk. cbn [stk minted stack_mass mass].
   split; [|reflexivity]. destruct (key_eqb k (tk, c)); lia.
 Qed.
 
-Theorem join_conserves_exactly st t c a1 a2 s k :
+Theorem join_conserves_exactly f st t c a1 a2 s k :
   stk st = VPair (VTicket t c a1) (VTicket t c a2) :: s ->
-  exists st', step JOIN_TICKETS st = Ok st' /\ stack_mass k (stk st') = stack_mass k (stk st) /\ minted st' = minted st.
+  exists st', step (S f) JOIN_TICKETS st = Ok st' /\ stack_mass k (stk st') = stack_mass k (stk st) /\ minted st' = minted st.
 Proof.
-  intros Hs. destruct (join_spec st t c a1 t c a2 s Hs eq_refl) as [H _]. specialize (H (conj eq_refl eq_refl)).
+  intros Hs. destruct (join_spec f st t c a1 t c a2 s Hs eq_refl) as [H _]. specialize (H (conj eq_refl eq_refl)).
   eexists. split; [exact H|]. rewrite Hs. unfold with_stk. cbn [stk minted stack_mass mass].
   split; [|reflexivity]. destruct (key_eqb k (t, c)); lia.
 Qed.
@@ -1023,10 +1135,10 @@ Proof.
   apply orb_prop in H. destruct H as [H|H]; [rewrite (IHt1 H) | rewrite (IHt2 H), andb_false_r]; reflexivity.
 Qed.
 
-Theorem map_of_tickets_get_dup_rejected st k big vt m s : ty_has_ticket vt = true ->
-  (stk st = VNat k :: VMap big vt m :: s -> step GET st = Reject) /\
-  (stk st = VMap big vt m :: s -> step DUP st = Reject) /\
-  (forall n, nth_error (stk st) n = Some (VMap big vt m) -> step (DUPN (S n)) st = Reject).
+Theorem map_of_tickets_get_dup_rejected f st k big vt m s : ty_has_ticket vt = true ->
+  (stk st = VNat k :: VMap big vt m :: s -> step (S f) GET st = Reject) /\
+  (stk st = VMap big vt m :: s -> step (S f) DUP st = Reject) /\
+  (forall n, nth_error (stk st) n = Some (VMap big vt m) -> step (S f) (DUPN (S n)) st = Reject).
 Proof.
   intros Ht. pose proof (ty_has_ticket_not_duplicable vt Ht) as Hd. repeat split.
   - intros Hs. cbn [step]. rewrite Hs, Hd. reflexivity.
@@ -1035,12 +1147,36 @@ Proof.
 Qed.
 
 (* GET_AND_UPDATE is the way to take a ticket out: it moves the value, exactly *)
-Theorem get_and_update_moves st k t big vt m s :
+Theorem get_and_update_moves f st k t big vt m s :
   stk st = VNat k :: VNone t :: VMap big vt m :: s ->
-  step GET_AND_UPDATE st = Ok (with_stk st (opt_of vt (map_get k m) :: VMap big vt (map_remove k m) :: s)) /\
+  step (S f) GET_AND_UPDATE st = Ok (with_stk st (opt_of vt (map_get k m) :: VMap big vt (map_remove k m) :: s)) /\
   map_get k (map_remove k m) = None.
 Proof.
   intros Hs. split; [cbn [step]; rewrite Hs; reflexivity|].
   clear. induction m as [|[k1 x] r IH]; [reflexivity|]. cbn [map_remove]. destruct (k =? k1) eqn:E; [exact IH|].
   cbn [map_get]. rewrite E. exact IH.
+Qed.
+
+(* ---- closures: a captured ticket can never come out again (the statement seed C20-5 violated) ---- *)
+Lemma ty_has_ticket_not_pushable t : ty_has_ticket t = true -> pushable t = false.
+Proof.
+  induction t; cbn [ty_has_ticket pushable]; intros H; try discriminate; try reflexivity; auto.
+  - apply orb_prop in H. destruct H as [H|H]; [rewrite (IHt1 H) | rewrite (IHt2 H), andb_false_r]; reflexivity.
+  - destruct big; [reflexivity | auto].
+Qed.
+
+Lemma not_all_pushable caps c : In c caps -> pushable (type_of c) = false ->
+  forallb (fun c0 => pushable (type_of c0)) caps = false.
+Proof.
+  induction caps as [|c0 r0 IH]; intros Hin Hp; [contradiction|]. cbn [forallb]. destruct Hin as [->|Hin].
+  - rewrite Hp. reflexivity.
+  - rewrite (IH Hin Hp). apply andb_false_r.
+Qed.
+
+Theorem closure_with_ticket_never_runs f st x a r caps body s c :
+  stk st = x :: VLam a r caps body :: s -> In c caps -> ty_has_ticket (type_of c) = true ->
+  step (S f) EXEC st = Reject.
+Proof.
+  intros Hs Hin Ht. cbn [step]. rewrite Hs.
+  rewrite (not_all_pushable caps c Hin (ty_has_ticket_not_pushable _ Ht)), andb_false_r. reflexivity.
 Qed.
